@@ -109,6 +109,20 @@ pub struct CreateOptions { pub dummy: u8 }
         }
 //@end
 
+//@extract src/keyspace/options.rs :: CreateOptions :: from_kvs as=from_kvs_manual_persist world props=C16+C02+C09
+//@anchor let manual_journal_persist
+//@sig fn from_kvs_manual_persist(keyspace_id: InternalKeyspaceId, meta_keyspace: &MetaKeyspace) -> FjResult<bool>
+//@yield Ok(manual_journal_persist)
+//@contract
+    requires old(w).rows.dom().contains((keyspace_id, "manual_journal_persist"@)),
+    ensures
+        // the journal persist mode a keyspace was created with is recovered from ITS OWN row (C16); it decides whether an
+        // acknowledged write has reached the OS (C02, C09)
+        r is Ok ==> r->Ok_0 == (old(w).rows[(keyspace_id, "manual_journal_persist"@)] == seq![1u8]), // [C16:manual-journal-persist-recovered-from-its-own-row] [C02:manual-journal-persist-recovered-from-its-own-row] [C09:manual-journal-persist-recovered-from-its-own-row]
+//@proof before Ok(manual_journal_persist)
+        proof { assert([1u8]@ =~= seq![1u8]); }
+//@end
+
 //@canary
 } // verus!
 fn main() {}
